@@ -729,9 +729,11 @@ def check_contracts(ctx, rep, rng, tier):
                 n = rng.choice([70001, 200003])
             jobs.append({"codec": name, "seed": rng.getrandbits(32), "n": n,
                          "texture": rng.choice(["random", "period", "text", "code", "zeros"])})
-    # a deterministic witness of the pyppmd decoder fault (hangs inside Ppmd7Decoder.decode), kept so that the
-    # classification of PPMd session failures does not depend on the random draw
+    # pyppmd's decoder fault is a thread race (about one large case in ten): a few more large cases, among them one that
+    # hung three times out of three when it was found
     jobs.append({"codec": "ppmd", "seed": 244817139, "n": 70001, "texture": "random"})
+    for _ in range(10 if tier == "quick" else 40):
+        jobs.append({"codec": "ppmd", "seed": rng.getrandbits(32), "n": rng.choice([32769, 70001, 200003]), "texture": rng.choice(TEXTURES)})
     table = rep.extra.setdefault("codec_contracts", {})
 
     def one(job):
@@ -1001,40 +1003,68 @@ def _packsize(blob, password):
         return [0 if ms is None else int(sum(ms.packinfo.packsizes)), int(z.sig_header.nextheaderofs)]
 
 
+class _Alarm(Exception):
+    pass
+
+
 def batch_worker(specs):
+    """runs in a sandbox child.  A session that spins in Python code (Worker.decompress has no progress guard) is ended by
+    SIGALRM; one stuck inside a C extension is ended by the parent's timeout on the whole child"""
+    import signal
+
+    def on_alarm(signum, frame):
+        raise _Alarm()
+    signal.signal(signal.SIGALRM, on_alarm)
     out = []
+    limit = specs[0].get("_alarm", 45) if specs else 45
     for s in specs:
         t = time.time()
+        signal.alarm(limit)
         try:
             r = run_session(s)
+        except _Alarm:
+            r = {"status": "fail", "stage": "spin", "exc": "timeout", "msg": "session did not finish within %d s" % limit}
         except BaseException as e:  # noqa
             r = {"status": "fail", "stage": "harness", "exc": type(e).__name__, "msg": str(e)[:200]}
+        finally:
+            signal.alarm(0)
         r["t"] = round(time.time() - t, 2)
         out.append(r)
     return out
 
 
-def run_specs(specs, per_batch, timeout_one=150):
+def run_specs(specs, per_batch, timeout_one=200, unexplained=None, stop_after=40):
     """every session in a child process (a codec may crash or the extraction loop may spin); a batch that dies is
-    re-run one by one to find the session responsible"""
+    re-run one by one to find the session responsible; a session ended by the alarm is run once more alone with a
+    longer limit (a loaded machine is not a spinning loop).  `unexplained(spec, result)` says whether a failure is
+    outside the listed findings: after `stop_after` of those no further batches are started (the verdict is settled;
+    a tree on which every second extraction spins would otherwise take hours)."""
     from harness.sandbox import run_sandboxed
     batches = [specs[i:i + per_batch] for i in range(0, len(specs), per_batch)]
+    state = {"bad": 0, "skipped": 0}
+
+    def single(s, limit):
+        r = run_sandboxed("harness.c01:batch_worker", [dict(s, _alarm=limit)], timeout=limit + 60, mem_mb=4000)
+        if r["status"] == "ok":
+            return r["value"][0]
+        return {"status": "fail", "stage": "process", "exc": r["status"], "msg": "child %s rc=%s %s" % (
+            r["status"], r.get("rc"), (r.get("stderr") or "")[-120:])}
 
     def do(batch):
-        res = run_sandboxed("harness.c01:batch_worker", batch, timeout=40 * len(batch) + 30, mem_mb=4000)
+        if state["bad"] >= stop_after:
+            state["skipped"] += len(batch)
+            return []
+        res = run_sandboxed("harness.c01:batch_worker", batch, timeout=50 * len(batch) + 40, mem_mb=4000)
         if res["status"] == "ok":
-            return list(zip(batch, res["value"]))
-        out = []
-        for s in batch:
-            r = run_sandboxed("harness.c01:batch_worker", [s], timeout=timeout_one, mem_mb=4000)
-            if r["status"] == "ok":
-                out.append((s, r["value"][0]))
-            else:
-                out.append((s, {"status": "fail", "stage": "process", "exc": r["status"], "msg": "child %s rc=%s %s" % (
-                    r["status"], r.get("rc"), (r.get("stderr") or "")[-120:])}))
+            out = [(s, r if r.get("stage") != "spin" else single(s, 150)) for s, r in zip(batch, res["value"])]
+        else:
+            out = [(s, single(s, 150)) for s in batch]
+        if unexplained is not None:
+            state["bad"] += sum(1 for s, r in out if r["status"] != "ok" and unexplained(s, r))
         return out
     with ThreadPoolExecutor(16) as ex:
         parts = list(ex.map(do, batches))
+    run_specs.skipped = state["skipped"]
     return [x for p in parts for x in p]
 
 
@@ -1112,10 +1142,22 @@ def check_e2e(ctx, rep, rng, tier):
     specs.append({"chain": "copy+aes", "password": "pw", "header": "encoded", "target": "multivolume", "volume": (1 << 20) + 4,
                   "block": None, "limit": None, "api": "writestr",
                   "members": [["big.bin", {"n": 2097200 - 32 - 16, "texture": "random", "seed": 7}], ["tail", {"n": 40, "texture": "text", "seed": 8}]]})
+    # one fixed witness per listed finding, so that its KNOWN-FINDING line does not depend on the random draw
+    specs.append({"chain": "copy+aes", "password": "pw", "header": "encoded", "target": "bytesio", "volume": 4096, "block": 7,
+                  "limit": None, "api": "writestr", "members": [["s", {"n": 40, "texture": "text", "seed": 2}]]})
+    specs.append({"chain": "brotli+aes", "password": "pw", "header": "encoded", "target": "bytesio", "volume": 4096, "block": None,
+                  "limit": None, "api": "writestr", "members": [["b", {"n": 300, "texture": "text", "seed": 3}]]})
+    for nbytes in (1, 2, 3, 4, 5, 6, 7, 8):   # the header lands on a boundary of the 64-byte volumes for some of these
+        specs.append({"chain": "copy", "password": None, "header": "raw", "target": "multivolume", "volume": 64, "block": None,
+                      "limit": None, "api": "writestr", "members": [["h", {"n": nbytes, "texture": "text", "seed": 4}]]})
     # one write() spanning more than 1000 volumes of 64 bytes
     specs.append({"chain": "copy", "password": None, "header": "encoded", "target": "multivolume", "volume": 64, "block": None,
                   "limit": None, "api": "writestr", "members": [["m", {"n": 100000, "texture": "text", "seed": 1}]]})
-    results = run_specs(specs, per_batch=6 if tier == "quick" else 20)
+    def unexplained(spec, r):
+        return "ppmd" not in spec["chain"] and classify(dict(ctx, model=None), spec, r)[1]["kind"] in ("roundtrip", "short-read-unexplained")
+    results = run_specs(specs, per_batch=6 if tier == "quick" else 20, unexplained=unexplained)
+    if run_specs.skipped:
+        rep.extra["e2e_sessions_not_run"] = "%d (stopped after 40 failures outside the listed findings)" % run_specs.skipped
     if ctx.get("contracts_thread") is not None:
         ctx["contracts_thread"].join()      # classification of PPMd failures looks at the contract validation
     ok = 0
